@@ -560,6 +560,56 @@ func genDegenerateLayouts(rng *lib.Rng, b *baseScenario) []job {
 		}
 		add("layout/odd-step-name", fmt.Sprintf("step named %q", nm), l, dir)
 	}
+	// step names that are glob patterns / paths and are LONGER than (or differently shaped from) the file
+	// names they match: the step name goes into filepath.Glob unescaped, so parseable link files whose
+	// names are not <step name>.<8 chars>.link are handed to the loader loop
+	id8 := kp.Pub.KeyID[:8]
+	globNames := []struct {
+		step  string
+		files []string
+	}{
+		{"[0123456789]", []string{"7." + id8 + ".link", "0.aaaaaaaa.link"}},
+		{"[a-z][a-z][a-z][a-z][a-z][a-z]", []string{"abcdef." + id8 + ".link"}},
+		{"[^x]", []string{"b." + id8 + ".link"}},
+		{strings.Repeat("*", 30), []string{"a." + id8 + ".link", "." + id8 + ".link", "build." + id8 + ".link"}},
+		{"a*", []string{"a." + id8 + ".link", "abc." + id8 + ".link"}},
+		{"*a*b*c*d*e*f*g*h*", []string{"abcdefgh." + id8 + ".link"}},
+		{"??????????", []string{"aaaaaaaaaa." + id8 + ".link"}},
+		{"\\b\\u\\i\\l\\d", []string{"build." + id8 + ".link"}},
+		{"\\b\\u\\i\\l\\d\\.\\x\\x\\x\\x", []string{"build.xxxx." + id8 + ".link"}},
+		{"sub-directory/b", []string{"sub-directory/b." + id8 + ".link"}},
+		{"a/b/c/d/e/f/g/h", []string{"a/b/c/d/e/f/g/h." + id8 + ".link"}},
+		{"../links/b", []string{"b." + id8 + ".link"}},
+		{"./././././././b", []string{"b." + id8 + ".link"}},
+		{"*/*", []string{"x/y." + id8 + ".link"}},
+		{"{a,b}", []string{"a." + id8 + ".link"}},
+		{"b" + strings.Repeat("[b]", 60), []string{"b" + strings.Repeat("b", 60) + "." + id8 + ".link"}},
+		{"*.????????", []string{"x.yyyyyyyy." + id8 + ".link", id8 + "." + id8 + ".link"}},
+		{"*.link", []string{"b.link." + id8 + ".link"}},
+	}
+	for _, g := range globNames {
+		name := strings.ReplaceAll(g.step, "\\\\", "\\")
+		l = base()
+		l.Steps[0].Name = name
+		dir := &DirSpec{Files: map[string][]byte{}}
+		for _, f := range g.files {
+			dir.Files[f] = signedFile(mkLink(name, nil, nil), false, kp)
+		}
+		add("hostile-dir/glob-step-name", fmt.Sprintf("step named %q, matching files %q", name, g.files), l, dir)
+		file := signedFile(l, false, kp)
+		jobs = append(jobs, job{klass: "hostile-dir/glob-step-name", in: &Input{Entry: "thresholds",
+			Note: fmt.Sprintf("step named %q, matching files %q (LoadLinksForLayout)", name, g.files), File: file, Dir: dir}})
+		// the same with DSSE links and a second step whose plain name is a prefix of the files
+		l2 := base()
+		l2.Steps[0].Name = name
+		l2.Steps = append(l2.Steps, intoto.Step{Type: "step", PubKeys: []string{kp.Pub.KeyID}, Threshold: 0, SupplyChainItem: intoto.SupplyChainItem{Name: "b"}})
+		dir2 := &DirSpec{Files: map[string][]byte{}}
+		for _, f := range g.files {
+			dir2.Files[f] = signedFile(mkLink(name, nil, nil), true, kp)
+		}
+		jobs = append(jobs, job{klass: "hostile-dir/glob-step-name", in: &Input{Entry: "verify",
+			Note: fmt.Sprintf("step named %q plus step b, DSSE links %q", name, g.files), File: signedFile(l2, false, kp), Dir: dir2, KeyName: "ed1"}})
+	}
 	// expiry variants
 	for _, e := range []string{"", "x", "2035-01-02", "2035-13-45T99:99:99Z", "0000-00-00T00:00:00Z", "9999-12-31T23:59:59Z", "2035-01-02T03:04:05+00:00", "2000-01-01T00:00:00Z", strings.Repeat("2", 5000)} {
 		l = base()
